@@ -67,10 +67,30 @@ func ignoredCall(name string) bool {
 
 // call executes one call instruction and then the ghost assignments anchored after it.
 func (g *gen) call(x *ssa.Call, st State, reach string) string {
+	anchored := g.fc != nil && (len(g.fc.GhostSets) > 0 || len(g.fc.PointAsserts) > 0) && !g.isInline
+	name, nth := "", 0
+	if anchored {
+		name = calleeName(&x.Call)
+		nth = g.count("gset." + name)
+		for _, pa := range g.fc.PointAsserts {
+			if strings.TrimPrefix(pa.Callee, "(") != strings.TrimPrefix(name, "(") || pa.Nth != nth {
+				continue
+			}
+			e := g.newEnv(st, g.entry)
+			if g.curBlock != nil {
+				e.atBlock, e.atEnd = g.curBlock, true
+			}
+			t, err := g.elabBool(pa.Clause.E, e)
+			if err != nil {
+				g.contractError(pa.Clause, err)
+				continue
+			}
+			g.obligeClause("assert", fmt.Sprintf("%s.assert.%s", g.fnKey, pa.Clause.Label), pa.Clause, reach, t)
+			g.pointAssertsApplied++
+		}
+	}
 	reach = g.call0(x, st, reach)
-	if g.fc != nil && len(g.fc.GhostSets) > 0 && !g.isInline {
-		name := calleeName(&x.Call)
-		nth := g.count("gset." + name)
+	if anchored && len(g.fc.GhostSets) > 0 {
 		var results []Val
 		if rv, ok := g.vals[x]; ok {
 			if tt, ok := x.Type().(*types.Tuple); ok {
@@ -164,7 +184,7 @@ func (g *gen) call0(x *ssa.Call, st State, reach string) string {
 			return reach
 		}
 	}
-	if ignoredCall(name) {
+	if ignoredCall(name) && g.lookupContract(c, name) == nil {
 		g.ctx.note("dropped call: " + strings.SplitN(name, ")", 2)[0] + ")")
 		if x.Type() != nil && !isEmptyTuple(x.Type()) {
 			g.vals[x] = g.havocVal(x.Name(), x.Type(), st, reach)
